@@ -8,7 +8,7 @@ echo "$V" | sed "s/^/$ID: /"
 echo "$V" | grep -q "demo$N without patch: exit=0" || { echo "$ID: REJECTED (demo fails without patch)"; exit 0; }
 echo "$V" | grep -q "132 passed" || { echo "$ID: REJECTED (tests)"; exit 0; }
 echo "$V" | grep -q "demo$N with patch: exit=0" && { echo "$ID: REJECTED (demo passes with patch)"; exit 0; }
-C=$(MUT_SCRATCH=${SEED_SCRATCH:-/tmp/mut2} python3 /verif/tools/seedcheck.py "$WT/out/patch$N.diff" 2>&1)
+C=$(MUT_SCRATCH=${SEED_SCRATCH:-/tmp/mut2} python3 /verif/tools/seedcheck.py "$WT/out/patch$N.diff" ${SEED_PROPS:-} 2>&1)
 echo "$C" | sed "s/^/$ID: /"
 mkdir -p "$OUT"
 cp "$WT/out/patch$N.diff" "$OUT/patch.diff"; cp "$WT/out/demo$N.rs" "$OUT/demo.rs"; cp "$WT/out/meta$N.txt" "$OUT/needs.txt" 2>/dev/null
@@ -20,5 +20,5 @@ needs=open(out+'/needs.txt').read() if __import__('os').path.exists(out+'/needs.
 json.dump({"id":id_,"breaks_property":prop,"source":"independent sub-agent given only the property text and a scratch worktree",
  "needs_to_manifest":needs,
  "confirmed":{"suite_with_patch":"132 passed (cargo nextest, pinned command minus the always-hanging prop_op_reordering_converges)","demo_without_patch":"exit 0","demo_with_patch":"non-zero exit","how":"tools/verify_seed.sh in the scratch worktree"},
- "quick_checks_that_caught_it":caught.split() if caught!='none' else [],"checked_with":"tools/seedcheck.py (scratch copy of /repo + harness), VERIF_SEED=1"},open(out+'/meta.json','w'),indent=1)
+ "quick_checks_that_caught_it":caught.split() if caught!='none' else [],"checked_with":"tools/seedcheck.py (scratch copy of /repo + harness), VERIF_SEED=1, checks run: "+(__import__("os").environ.get("SEED_PROPS") or "all twenty")},open(out+'/meta.json','w'),indent=1)
 PY
